@@ -123,6 +123,11 @@ def prune_cache(keep_prefixes=()):
         except OSError: pass
 
 if __name__ == '__main__':
+    if sys.argv[1] == '--warm':
+        os.makedirs(CACHE, exist_ok=True)
+        from concurrent.futures import ThreadPoolExecutor
+        with ThreadPoolExecutor(2) as ex: list(ex.map(lib_objects, ['bc', 'o']))
+        sys.exit(0)
     t = time.time()
     print(build_ir(sys.argv[1], sys.argv[2:]))
     print('%.1fs' % (time.time() - t))
